@@ -26,11 +26,26 @@ import (
 	"time"
 )
 
-const (
-	verifDir = "/verif"
-	simDir   = "/verif/sim"
-	goBin    = "go1.26.8"
-)
+const goBin = "go1.26.8"
+
+// verifDir is the tree this binary belongs to (<verifDir>/bin/vsim): /verif for the registered checks, a snapshot
+// directory for background runs started with `vp run`.
+var verifDir, simDir = locate()
+
+func locate() (string, string) {
+	d := "/verif"
+	if exe, err := os.Executable(); err == nil {
+		if r, err := filepath.EvalSymlinks(exe); err == nil {
+			exe = r
+		}
+		if c := filepath.Dir(filepath.Dir(exe)); fileExists(filepath.Join(c, "sim", "go.mod")) {
+			d = c
+		}
+	}
+	return d, filepath.Join(d, "sim")
+}
+
+func fileExists(p string) bool { _, err := os.Stat(p); return err == nil }
 
 // repoDir is /repo for every registered check. VSIM_REPO_DIR points the build
 // at a scratch worktree instead (used only to try seeded breaking changes
